@@ -52,6 +52,10 @@ type AmmoCase struct {
 	GSuffix    []GEntry `json:"grpc_suffix,omitempty"` // grpc/json: entries after the garbage
 	Garbage    string   `json:"garbage,omitempty"`
 	MustReject bool     `json:"must_reject,omitempty"` // the garbage is malformed by the format's documentation
+	// Glue (http/json): what stands between the last byte of the valid JSON and the garbage; "" = the garbage starts on a
+	// fresh line after the file as rendered, otherwise none | space | tab | newline | crlf | blank_lines (JSON values are
+	// separated by any or no whitespace, so the garbage is garbage wherever it starts).
+	Glue string `json:"garbage_glue,omitempty"`
 }
 
 // ---------------------------------------------------------------------------
@@ -97,6 +101,37 @@ var invalidGarbage = map[string][]string{
 	"raw":      {"abc", "x12 tag", "12x", "500 t\nGET / HTTP/1.1\r\n\r\n", "-5 tag"},
 	"jsonline": {`{"uri": `, `{"method": 5, "uri": "/a"}`, `[1,2`, `xyz`, `{"method":"G T","uri":"/a"}`, `{"method":"GET","uri":"%zz"}`},
 	fmtGRPC:    {`{"tag": `, `{"tag": 5}`, `xyz`, `[1,2]`, `{"call":"c","payload":"str"}`, `{"tag":"t"}}`, `"just a string"`},
+}
+
+// Garbage of the JSON formats that begins with a JSON structural character (RFC 8259: [ ] { } : ,) or a quote. No JSON
+// value can begin with ] } : or , whatever follows, and the tails given for [ { " leave the value unterminated or
+// broken, so a file that continues like this after its valid entries is never well-formed - neither as one document
+// nor as a sequence of values / lines.
+var structuralGarbage = []struct {
+	Name  string
+	First string
+	Tails []string
+}{
+	{"close_bracket", "]", []string{"", "]", "\n", "\n[", " ]", "}", `{"method":"GET","uri":"/a"}`, "\n" + `[{"method":"GET","uri":"/a"}]`, ",", "x"}},
+	{"close_brace", "}", []string{"", "}", "\n", "\n{", " }", "]", `{"method":"GET","uri":"/a"}`, "\n" + `{"method":"GET","uri":"/a"}`, ",", "x"}},
+	{"comma", ",", []string{"", ",", "\n", `{"method":"GET","uri":"/a"}`, "]", "}", " ", "null"}},
+	{"colon", ":", []string{"", ":", "\n", `{"method":"GET","uri":"/a"}`, "1", "}", " "}},
+	{"open_bracket", "[", []string{"", "[", "}", ",", "1,2", `{"method":"GET","uri":"/a"}`, `{"method":"GET","uri":"/a"},`, "\n"}},
+	{"open_brace", "{", []string{"", "{", "]", ",}", ":}", `"method":"GET","uri":"/a"`, `"method":"GET","uri":"/a"]`, `"uri"}`, "\n"}},
+	{"quote", "\"", []string{"", "abc", `method":"GET"`, "\\", "\n"}},
+}
+
+var glues = map[string]string{"none": "", "space": " ", "tab": "\t", "newline": "\n", "crlf": "\r\n", "blank_lines": "\n\n \n"}
+var glueNames = []string{"none", "none", "space", "tab", "newline", "crlf", "blank_lines"}
+
+// structuralFirst names the structural character a garbage string begins with ("" = none).
+func structuralFirst(g string) string {
+	for _, sg := range structuralGarbage {
+		if strings.HasPrefix(g, sg.First) {
+			return sg.Name
+		}
+	}
+	return ""
 }
 
 // anything-goes garbage lines (may happen to be valid for the format)
@@ -185,9 +220,21 @@ func genAmmoCase(format string, r *vf.Run) func(t *rapid.T) AmmoCase {
 func genMeta(t *rapid.T, c *AmmoCase) {
 	c.Mode, c.Origin = "meta", "meta"
 	c.MustReject = rapid.IntRange(0, 2).Draw(t, "must_reject") > 0
-	if c.MustReject {
+	structural := false
+	if c.MustReject && (c.Format == "jsonline" || c.Format == fmtGRPC) {
+		structural = rapid.Bool().Draw(t, "structural_garbage")
+	}
+	switch {
+	case structural:
+		sg := structuralGarbage[rapid.IntRange(0, len(structuralGarbage)-1).Draw(t, "structural_first")]
+		c.Garbage = sg.First + rapid.SampledFrom(sg.Tails).Draw(t, "structural_tail")
+		if c.Format == fmtGRPC {
+			// grpc/json is read line by line: the garbage is one line
+			c.Garbage = strings.ReplaceAll(c.Garbage, "\n", " ")
+		}
+	case c.MustReject:
 		c.Garbage = rapid.SampledFrom(invalidGarbage[c.Format]).Draw(t, "garbage")
-	} else {
+	default:
 		c.Garbage = rapid.SampledFrom(append(append([]string{}, looseGarbage...), hostileTokens...)).Draw(t, "garbage")
 	}
 	c.Passes = rapid.IntRange(1, 2).Draw(t, "passes")
@@ -203,10 +250,18 @@ func genMeta(t *rapid.T, c *AmmoCase) {
 	}
 	f := ag.Gen(t, c.Format, ag.GenOpts{MinEntries: 1, MaxEntries: 4})
 	f.Layout.Inline = false
+	if c.Format == "jsonline" && c.MustReject && rapid.IntRange(0, 2).Draw(t, "as_array") == 0 {
+		// one top-level array: the decoder judges the file as a whole, whatever follows the closing bracket included
+		f.Layout.JSON = "array"
+	}
 	c.Valid = &f
 	c.Preload = rapid.Bool().Draw(t, "preload")
 	d := f.Render()
-	if len(d) == 0 || d[len(d)-1] != '\n' {
+	if c.Format == "jsonline" && c.MustReject && rapid.Bool().Draw(t, "glued") {
+		// the garbage follows the last valid value after no / some whitespace instead of on a fresh line
+		c.Glue = rapid.SampledFrom(glueNames).Draw(t, "glue")
+		d = append(bytes.TrimRight(d, " \t\r\n"), glues[c.Glue]...)
+	} else if len(d) == 0 || d[len(d)-1] != '\n' {
 		d = append(d, '\n') // the garbage starts on a fresh line
 	}
 	c.Data = append(d, c.Garbage...)
@@ -295,6 +350,26 @@ func ammoBody(c AmmoCase, o *vf.Obs) error {
 		return err
 	}
 	class("origin_" + c.Origin)
+	if c.Mode == "meta" && c.MustReject {
+		// labelled here: a file in array form is judged (and rejected) as a whole at construction
+		layout := "lines"
+		if c.Valid != nil && c.Valid.Layout.JSON != "" {
+			layout = c.Valid.Layout.JSON
+		}
+		if first := structuralFirst(c.Garbage); first != "" && (c.Format == "jsonline" || c.Format == fmtGRPC) {
+			class("meta_garbage_structural", "meta_garbage_first_"+first)
+			if c.Format == "jsonline" {
+				class("meta_garbage_first_" + first + "_after_" + layout)
+			}
+		}
+		if c.Format == "jsonline" {
+			if c.Glue != "" {
+				class("meta_garbage_glue_"+c.Glue, "meta_garbage_glued_after_"+layout)
+			} else {
+				class("meta_garbage_on_fresh_line")
+			}
+		}
+	}
 	for _, op := range c.Ops {
 		if i := strings.IndexByte(op, '='); i > 0 {
 			op = op[:i]
@@ -312,7 +387,7 @@ func ammoBody(c AmmoCase, o *vf.Obs) error {
 		if c.Mode == "meta" && c.Format != "jsonline" {
 			return violationf("%s: provider construction failed for a file that starts with valid entries: %v", c.Format, buildErr)
 		}
-		if c.Origin == "mutated" && o != nil {
+		if (c.Origin == "mutated" || c.Mode == "meta") && o != nil {
 			o.NonTrivial()
 		}
 		return nil
